@@ -129,7 +129,7 @@ def dt_form_case(draw):
     dform = draw(st.sampled_from(["cal", "ord", "wk", "wk"]))
     if dform == "wk" and draw(st.booleans()):
         o = max(577736, o - D.date.fromordinal(o).weekday())       # a Monday: the week can be written without its day
-    return {"o": o, "dform": dform, "ext": draw(st.booleans()),
+    return {"o": o, "dform": dform, "ext": draw(st.booleans()), "mix": draw(st.booleans()),
             "h": draw(st.sampled_from([0, 23, 12]) | st.integers(0, 23)), "mi": draw(st.sampled_from([0, 59]) | st.integers(0, 59)),
             "s": draw(st.sampled_from([0, 59]) | st.integers(0, 59)),
             "frac": draw(st.text("0123456789", min_size=1, max_size=9)), "fsep": draw(st.sampled_from(".,")),
@@ -181,10 +181,13 @@ class DateTimeForms(Sub):
         ds = forms[key]
         ts, tv = time_str(c)
         offkind = c["offkind"]
-        if not c["ext"] and offkind == "hh:mm":
-            offkind = "hhmm"
-        if c["ext"] and offkind == "hhmm" and c["prec"] != "h":
-            offkind = "hh:mm"
+        if not c.get("mix"):
+            # the offset in the style of the date and time ...
+            if not c["ext"] and offkind == "hh:mm":
+                offkind = "hhmm"
+            if c["ext"] and offkind == "hhmm" and c["prec"] != "h":
+                offkind = "hh:mm"
+        # ... or (mix) as drawn: the property spells the offset +-hh[:mm] for basic and extended texts alike
         offs, offv = offset_str(offkind, c["sg"], c["oh"], c["om"])
         s = ds + c["sep"] + ts + offs
         exp = ("dt", d.year, d.month, d.day) + tv + (offv,)
